@@ -13,6 +13,9 @@ EXTENDS GroupUniverse, SequencesExt, Json
 CONSTANTS MaxNodes, Wide
 
 KM == <<109>>
+KP == <<112>>      \* $p: an array of strings
+KS == <<115>>      \* $s: a string
+VarsC10 == << [k |-> KP, v |-> VArr(<<VStr(KX), VStr(KA)>>)], [k |-> KS, v |-> VStr(KA)] >>
 At(a) == <<NCur>> \o a
 PrefixSet ==
   IF Wide THEN { <<NRoot>>, <<NRoot, NAnyArr>>, <<NRoot, NKey(KA)>>, <<NRoot, NAnyKey>>, <<NRoot, NAny(0, -1)>>,
@@ -42,7 +45,21 @@ Others ==
     NBin("eq", At(<<>>), <<NVar(KM)>>),                                                 \* non-suppressible
     NBin("or", <<NBin("eq", At(<<>>), Lit(1))>>, <<NBin("eq", At(<<>>), <<NVar(KM)>>)>>),
     NBin("lt", <<NUn("minus", At(<<>>))>>, Lit(0)),
-    NBin("eq", At(<<NMethod("type")>>), <<NStr(<<110,117,109,98,101,114>>)>>) }
+    NBin("eq", At(<<NMethod("type")>>), <<NStr(<<110,117,109,98,101,114>>)>>),
+    (* right operands: a variable holding an array or a string; a failing right operand next to an empty left one *)
+    NBin("starts", At(<<>>), <<NVar(KP)>>), NBin("starts", At(<<NKey(KA)>>), <<NVar(KS)>>),
+    NUn("isunknown", <<NBin("starts", At(<<>>), <<NVar(KP)>>)>>),
+    NBin("eq", At(<<>>), <<NVar(KP)>>), NBin("eq", At(<<NKey(KA)>>), <<NVar(KS)>>),
+    NBin("eq", At(<<NKey(KX)>>), At(<<NKey(KB), NMethod("integer")>>)),
+    NUn("not", <<NBin("eq", At(<<NKey(KX)>>), At(<<NKey(KB), NMethod("integer")>>))>>),
+    NUn("isunknown", <<NBin("eq", At(<<NKey(KX)>>), At(<<NMethod("integer")>>))>>),
+    NBin("eq", At(<<NKey(KX)>>), <<NVar(KM)>>),
+    NBin("lt", At(<<NKey(KX)>>), <<NBin("div", Lit(1), Lit(0))>>),
+    (* @ used again after a nested filter that accepted / rejected its last candidate *)
+    NBin("or", <<NUn("exists", At(<<NKey(KA), NAnyArr, NFilter(NBin("eq", At(<<>>), Lit(1)))>>))>>, <<NBin("eq", At(<<NKey(KB)>>), Lit(2))>>),
+    NBin("and", <<NUn("not", <<NUn("exists", At(<<NKey(KA), NAnyArr, NFilter(NBin("eq", At(<<>>), Lit(2)))>>))>>)>>, <<NBin("eq", At(<<NKey(KB)>>), Lit(2))>>),
+    NBin("and", <<NBin("gt", At(<<NAnyArr, NFilter(NBin("gt", At(<<>>), Lit(1)))>>), Lit(0))>>, <<NBin("gt", At(<<NMethod("size")>>), Lit(1))>>),
+    NBin("or", <<NBin("eq", At(<<NAnyArr, NFilter(NBin("eq", At(<<>>), <<NStr(KA)>>))>>), <<NStr(KA)>>)>>, <<NBin("eq", At(<<NMethod("type")>>), <<NStr(<<97,114,114,97,121>>)>>)>>) }
 Conds == Cmp \cup Others
 CondSeq == SetToSeq(Conds)
 PrefSeq == SetToSeq(PrefixSet)
@@ -50,11 +67,17 @@ PrefSeq == SetToSeq(PrefixSet)
 Special == { VArr(<<VArr(<<VFlt(2)>>), VFlt(3), VArr(<<VFlt(0), VFlt(5)>>), VArr(<<VArr(<<VFlt(9)>>)>>)>>),
              VArr(<<VObj(<<[k |-> KA, v |-> VFlt(1)]>>), VObj(<<[k |-> KA, v |-> VFlt(2)]>>), VFlt(1), VStr(KA)>>),
              VObj(<<[k |-> KA, v |-> VArr(<<VFlt(1), VFlt(2)>>)], [k |-> KB, v |-> VFlt(2)]>>),
-             VArr(<<VFlt(1), VFlt(2), VFlt(1)>>) }
+             VArr(<<VFlt(1), VFlt(2), VFlt(1)>>),
+             VArr(<<VStr(<<97, 98>>), VStr(KX), VStr(<<120, 121>>), VFlt(12)>>),
+             VArr(<<VObj(<<[k |-> KA, v |-> VArr(<<VFlt(2), VFlt(1)>>)], [k |-> KB, v |-> VFlt(2)]>>),
+                    VObj(<<[k |-> KA, v |-> VArr(<<VFlt(1), VFlt(2)>>)], [k |-> KB, v |-> VFlt(2)]>>),
+                    VObj(<<[k |-> KA, v |-> VArr(<<>>)], [k |-> KB, v |-> VFlt(2)]>>),
+                    VObj(<<[k |-> KA, v |-> VStr(KA)], [k |-> KB, v |-> VStr(KX)]>>)>>) }
 DocSeq == SetToSeq(TreesUpTo({VFlt(1), VFlt(2), VStr(KA), VTrue, VNull}, <<KA, KB>>, MaxNodes) \cup Special)
 
 ASSUME ndJsonSerialize("c10.ndjson",
          [i \in 1..Len(CondSeq) |-> [c |-> CondSeq[i], cr |-> RwNode(CondSeq[i], 0)]])
+ASSUME ndJsonSerialize("vars.ndjson", <<[vars |-> VarsC10]>>)
 ASSUME ndJsonSerialize("prefixes.ndjson", [i \in 1..Len(PrefSeq) |-> [chain |-> PrefSeq[i]]])
 ASSUME ndJsonSerialize("docs.ndjson", [i \in 1..Len(DocSeq) |-> [doc |-> DocSeq[i]]])
 ASSUME PrintT(<<"UNIVERSE", Len(PrefSeq), Len(CondSeq), Len(DocSeq)>>)
@@ -63,15 +86,15 @@ VARIABLES pi, ci, di, lax
 
 ConjOK(P, C1, C2, doc) ==      \* strict: P ? (C1) ? (C2) = P ? (C1 && C2)
   GroupOK([id |-> 0, kind |-> "C10conj", lax |-> FALSE, names |-> <<>>,
-           runs |-> <<SpecGRun(P \o <<NFilter(C1), NFilter(C2)>>, FALSE, doc, <<>>, FALSE),
-                      SpecGRun(Append(P, NFilter(NBin("and", <<C1>>, <<C2>>))), FALSE, doc, <<>>, FALSE)>>])
+           runs |-> <<SpecGRun(P \o <<NFilter(C1), NFilter(C2)>>, FALSE, doc, VarsC10, FALSE),
+                      SpecGRun(Append(P, NFilter(NBin("and", <<C1>>, <<C2>>))), FALSE, doc, VarsC10, FALSE)>>])
 
 Init == pi \in 1..Len(PrefSeq) /\ ci \in 1..Len(CondSeq) /\ di = 0 /\ lax \in BOOLEAN
 Step == di = 0 /\ di' \in 1..Len(DocSeq) /\ UNCHANGED <<pi, ci, lax>>
-Bad1 == JudgeGroup(SpecC10(PrefSeq[pi], CondSeq[ci], DocSeq[di], <<>>, lax))
+Bad1 == JudgeGroup(SpecC10(PrefSeq[pi], CondSeq[ci], DocSeq[di], VarsC10, lax))
 C2i == ((ci * 7) % Len(CondSeq)) + 1
 Inv == di = 0
-       \/ ( /\ GroupOK(SpecC10(PrefSeq[pi], CondSeq[ci], DocSeq[di], <<>>, lax))
+       \/ ( /\ GroupOK(SpecC10(PrefSeq[pi], CondSeq[ci], DocSeq[di], VarsC10, lax))
             /\ (lax \/ ConjOK(PrefSeq[pi], CondSeq[ci], CondSeq[C2i], DocSeq[di])) )
        \/ (PrintT(<<"LAWFAIL", PrefSeq[pi], CondSeq[ci], CondSeq[C2i], DocSeq[di], lax, Bad1>>) /\ FALSE)
 =============================================================================
